@@ -37,12 +37,21 @@ def showRet (name : String) : Ret Nat Nat → String
   | .vals vs => s!"vals={showNatList (sortN vs)}"
   | .map m => if name == "copy" || name == "translate" then s!"map={showMap m} alias=0" else s!"map={showMap m}"
 
+def dotParts (s : String) : List String := ((s.drop 1).toString.splitOn ".").filter (· ≠ "")
+
 /-- short return encoding used in recorded histories. -/
 def parseShortRet (s : String) : Option (Ret Nat Nat) :=
   if s == "u" then some .unit
   else if s.startsWith "v" then (s.drop 1).toString.toNat?.map .val
   else if s.startsWith "b" then (s.drop 1).toString.toNat?.map (fun n => .bool (n != 0))
   else if s.startsWith "n" then (s.drop 1).toString.toNat?.map .nat
+  else if s.startsWith "K" then (dotParts s).mapM String.toNat? |>.map .keys
+  else if s.startsWith "V" then (dotParts s).mapM String.toNat? |>.map .vals
+  else if s.startsWith "M" then
+    ((dotParts s).mapM fun (e : String) =>
+      match e.splitOn "_" with
+      | [a, b] => do let a ← a.toNat?; let b ← b.toNat?; some (a, b)
+      | _ => none) |>.map .map
   else if s.startsWith "o" then
     match (s.drop 1).toString.splitOn "." with
     | [a, b] => do let a ← a.toNat?; let b ← b.toNat?; some (.valOk a (b != 0))
@@ -83,7 +92,14 @@ def step (m : M) (op obs : String) : M × R :=
   | "hist" =>
     let recs := ((getF ofs "ops").getD "").splitOn ";" |>.filterMap parseRec
     let n := ((getF ofs "ops").getD "").splitOn ";" |>.length
-    let lin := recs.length == n && linCheck (apply (K := Nat) (V := Nat)) ([] : M) recs
+    -- Go maps have no order: snapshots are compared as sorted lists on both sides
+    let canonRet : Ret Nat Nat → Ret Nat Nat
+      | .keys ks => .keys (sortN ks)
+      | .vals vs => .vals (sortN vs)
+      | .map mm => .map ((mm.toArray.qsort (fun a b => a.1 < b.1)).toList)
+      | r => r
+    let applyCanon (mm : M) (o : Op Nat Nat) : M × Ret Nat Nat := let (m', r) := apply mm o; (m', canonRet r)
+    let lin := recs.length == n && linCheck applyCanon ([] : M) recs
     let rc := getNat ofs "races" == some 0
     (m, { model := "linearizable races=0", mon := (if lin then [] else ["C07.linearizable"]) ++ (if rc then [] else ["C07.no_data_race"]),
           branch := s!"hist.{(getF fs "obj").getD "?"}.n{recs.length}" })
